@@ -356,9 +356,59 @@ func (w *World) TruncateChecked(n *Node, d *Driver, race bool) {
 		}
 	}
 	close(raceStart)
+	// clients keep asking for balances while the truncation runs (no writer is active then): every answer, whether it
+	// was computed before, during or after the cut, must be the answer given before the truncation
+	type badAns struct {
+		addr string
+		got  balAns
+	}
+	var readers sync.WaitGroup
+	var stopReaders atomic.Bool
+	var readerAnswers, readersReady atomic.Int64
+	var badMu sync.Mutex
+	var bad []badAns
+	watch := []string{}
+	if single && !race {
+		for _, a := range addrs {
+			if !n.Tainted[a] {
+				watch = append(watch, a)
+			}
+		}
+	}
+	if len(watch) > 0 {
+		for g := 0; g < 4; g++ {
+			readers.Add(1)
+			g := g
+			go func() {
+				defer readers.Done()
+				for i := g; !stopReaders.Load() && i < 1<<20; i++ {
+					a := watch[i%len(watch)]
+					b, err := n.Book.CalculateBalance(w.Ctx, a)
+					got := balAns{err == nil, MelStr(b.Spice)}
+					readerAnswers.Add(1)
+					if i == g {
+						readersReady.Add(1)
+					}
+					if got != ansBefore[a] {
+						badMu.Lock()
+						if len(bad) < 8 {
+							bad = append(bad, badAns{a, got})
+						}
+						badMu.Unlock()
+					}
+				}
+			}()
+		}
+		for k := 0; k < 2000 && readersReady.Load() < 4; k++ {
+			time.Sleep(time.Millisecond)
+		}
+	}
 	err := n.Book.VerifTruncate(w.Ctx)
 	w.LastTruncateErr = err
 	wg.Wait()
+	stopReaders.Store(true)
+	readers.Wait()
+	w.Res.Count("c07_balance_answers_during_truncation", int(readerAnswers.Load()))
 	w.TruncatedOnce = true
 	for i := range racedVs {
 		d.noteSealed(&racedVs[i])
@@ -490,6 +540,14 @@ func (w *World) TruncateChecked(n *Node, d *Driver, race bool) {
 				w.Violate("C07", sig, fmt.Sprintf("node %s: balance of %s over tip %s was %s before the truncation and is %s after it", n.Name, w.NameOf(a), Hex(tb.Tip), tb.Sum, ta.Sum))
 			}
 		}
+	}
+	for _, ba := range bad {
+		// (the ledger is known unchanged: this branch is reached only after a successful truncation without racing writers)
+		if n.BackgroundMayAct(before) || n.BackgroundMayAct(after) {
+			break
+		}
+		w.Violate("C07", "reported-balance-changed/during-truncation", fmt.Sprintf("node %s: CalculateBalance(%s) answered %+v before the truncation and %+v to a client that asked while the truncation was running", n.Name, w.NameOf(ba.addr), ansBefore[ba.addr], ba.got))
+		w.Violate("C06", "balance-answer-differs/during-truncation", fmt.Sprintf("node %s: a client that asked for the balance of %s while a truncation was running was told %+v; checkpointed funds + received - sent over the tip is %+v", n.Name, w.NameOf(ba.addr), ba.got, ansBefore[ba.addr]))
 	}
 	if single && !race {
 		for _, a := range addrs {
